@@ -22,10 +22,6 @@ def parallelReuse (g : Graph) (q : Query) : Bool :=
 def crossPattern (q : Query) : Bool :=
   (matchClauses q).any fun (_, ps) => (ps.filter (!·.steps.isEmpty)).length ≥ 2
 
-/-- C11-anon-rel-props-ignored: property map on a relationship pattern without a variable -/
-def anonRelProps (q : Query) : Bool :=
-  (matchClauses q).any fun (_, ps) => ps.any fun p => p.steps.any fun (rp, _) => rp.var.isNone && !rp.props.isEmpty
-
 def hasDup : Table → Bool
   | [] => false
   | r :: rest => rest.contains r || hasDup rest
@@ -56,10 +52,21 @@ def optionalDupOuter (A : Algebra) (env : Env) (q : Query) : Bool :=
   | .ok plan => (optionalOuters A env plan).any hasDup
   | .error _ => false
 
+def projections (q : Query) : List Proj :=
+  q.filterMap fun | .with_ p _ => some p | .return_ p => some p | _ => none
+
+/-- C11-order-by-alias-shadow: a WITH / RETURN with ORDER BY gives a new meaning to a name that another item still
+    reads (`WITH x AS y, y AS x ORDER BY x`): `rewrite_order_expression` replaces an ORDER BY expression equal to a
+    projected expression by that item's alias, although the name now denotes a different output column -/
+def orderAliasShadow (q : Query) : Bool :=
+  (projections q).any fun p => !p.orderBy.isEmpty && p.items.any fun it =>
+    it.expr != .plain (.var it.alias) &&
+      p.items.any fun it' => (Compile.itemExprOf it'.expr).vars.contains it.alias
+
 def triggers (A : Algebra) (env : Env) (q : Query) : List String :=
   (if parallelReuse env.g q then ["C11-parallel-rel-reuse"] else []) ++
   (if crossPattern q then ["C11-cross-pattern-rel-uniqueness"] else []) ++
-  (if anonRelProps q then ["C11-anon-rel-props-ignored"] else []) ++
-  (if optionalDupOuter A env q then ["C11-optional-duplicate-outer-rows"] else [])
+  (if optionalDupOuter A env q then ["C11-optional-duplicate-outer-rows"] else []) ++
+  (if orderAliasShadow q then ["C11-order-by-alias-shadow"] else [])
 
 end Nervus.Cy.Findings
